@@ -20,7 +20,8 @@ import (
 )
 
 // "ab"/"xa" end in other IDs of the alphabet: an ID is a whole key, not a suffix
-var kvIDs = []string{"a", "b", "c", "current", "next", "roots", "ab", "xa"}
+// "a.tmp", "a~", "a.bak" look like the scratch names an atomic-write scheme might use for "a" - they are IDs like any other
+var kvIDs = []string{"a", "b", "c", "current", "next", "roots", "ab", "xa", "a.tmp", "a~", "a.bak"}
 var kvTypes = []string{"NodeCredentials", "NodeInformation", "RootCertificates", "ServerLedActivationToken"}
 
 func kvListable(t string) bool { return t != "ServerLedActivationToken" }
@@ -180,6 +181,18 @@ func (s kvState) enc() string {
 	return b.String()
 }
 
+// kvShort renders the model state with long values abbreviated (for messages only).
+func kvShort(s kvState) string {
+	t := kvState{}
+	for k, v := range s {
+		if len(v) > 24 {
+			v = fmt.Sprintf("%s...(%d bytes)", v[:12], len(v))
+		}
+		t[k] = v
+	}
+	return t.enc()
+}
+
 func kvDec(e string) kvState {
 	s := kvState{}
 	for _, kv := range strings.Split(e, ";") {
@@ -279,6 +292,10 @@ func propC19(r *kernel.Run) {
 			in.Op = "store"
 			uniq++
 			in.Val = fmt.Sprintf("v%d", uniq) + strings.Repeat("x", tp.Draw(4)*tp.Draw(40)) // lengths differ so that an overwrite can shrink a record
+			if tp.Draw(40) == 0 {
+				// a large record (application state can be any size): tens to hundreds of KiB, around powers of two too
+				in.Val = fmt.Sprintf("v%d", uniq) + strings.Repeat("y", []int{4090, 32760, 65530, 65540, 131080, 300000}[tp.Draw(6)]+tp.Draw(16))
+			}
 		case k < 7:
 			in.Op = "load"
 		case k < 9:
@@ -296,6 +313,44 @@ func propC19(r *kernel.Run) {
 		return in
 	}
 	r.Count("cfg.backend."+backend, 1)
+	if !concurrent && tp.Draw(40) == 0 {
+		// a large population of one type (hundreds of records, past any directory-read or listing batch size), then random
+		// loads, a complete list, removals and loads again
+		r.Count("cfg.mode.bulk", 1)
+		t := kvTypes[tp.Draw(4)]
+		n := []int{255, 256, 257, 300, 513, 1025}[tp.Draw(6)] + tp.Draw(3)
+		model := kvState{}
+		bulkID := func(i int) string { return fmt.Sprintf("n%04d", i) }
+		check := func(in kvIn) {
+			out := kvApply(st, in)
+			ok, next := kvStep(model, in, out, storeOnce)
+			r.Count("ops."+in.Op, 1)
+			if !ok {
+				r.Violate("map-model", "differs-from-map-model/"+backend+"/"+in.Op+kvWhy(model, in, out)+"/large-population", "%s back end holding %d %s records: %s %s returned {Val:%s NotFound:%v Err:%v List:%s...}", backend, len(model), t, in.Op, in.ID, truncate(out.Val, 40), out.NotFound, out.Err, truncate(out.List, 80))
+			}
+			model = next
+		}
+		for i := 0; i < n; i++ {
+			check(kvIn{Op: "store", Type: t, ID: bulkID(i), Val: fmt.Sprintf("v%d", i)})
+			if i%97 == 0 && backend == "file" && tp.Draw(2) == 0 {
+				st = reopenBackend(r, st)
+			}
+		}
+		for j := 0; j < 40; j++ {
+			check(kvIn{Op: "load", Type: t, ID: bulkID(tp.Draw(n + 5))})
+		}
+		check(kvIn{Op: "list", Type: t})
+		for j := 0; j < 20; j++ {
+			check(kvIn{Op: "remove", Type: t, ID: bulkID(tp.Draw(n))})
+		}
+		for j := 0; j < 40; j++ {
+			check(kvIn{Op: "load", Type: t, ID: bulkID(tp.Draw(n))})
+		}
+		check(kvIn{Op: "list", Type: t})
+		r.Count("cases", 1)
+		r.FP("bulk", backend, t, n)
+		return
+	}
 	if !concurrent {
 		r.Count("cfg.mode.sequential", 1)
 		model := kvState{}
@@ -329,6 +384,12 @@ func propC19(r *kernel.Run) {
 				r.Count("ops.invalid_message", 1)
 				continue
 			}
+			if backend == "file" && tp.Draw(12) == 0 {
+				// the process restarts: a new Storage value over the same directory; the map model is untouched
+				st = reopenBackend(r, st)
+				hist = append(hist, "restart (directory re-opened)")
+				continue
+			}
 			in := draw()
 			out := kvApply(st, in)
 			ok, next := kvStep(model, in, out, storeOnce)
@@ -339,13 +400,13 @@ func propC19(r *kernel.Run) {
 					r.Count("probe.cancelled_operation_refused", 1)
 				}
 			}
-			hist = append(hist, fmt.Sprintf("%s%s %s/%s %s -> %+v", in.Op, map[bool]string{true: "(cancelled ctx)"}[in.Cancel], in.Type, in.ID, in.Val, out))
+			hist = append(hist, truncate(fmt.Sprintf("%s%s %s/%s %s", in.Op, map[bool]string{true: "(cancelled ctx)"}[in.Cancel], in.Type, in.ID, truncate(in.Val, 24)), 90)+fmt.Sprintf(" -> {Val:%s NotFound:%v Err:%v Dup:%v List:%s}", truncate(out.Val, 24), out.NotFound, out.Err, out.Dup, out.List))
 			if !ok {
 				tail := hist
 				if len(tail) > 8 {
 					tail = tail[len(tail)-8:]
 				}
-				r.Violate("map-model", "differs-from-map-model/"+backend+"/"+in.Op+kvWhy(model, in, out), "%s back end: %s %s/%s returned %+v, map model state %q; last ops %v", backend, in.Op, in.Type, in.ID, out, model.enc(), tail)
+				r.Violate("map-model", "differs-from-map-model/"+backend+"/"+in.Op+kvWhy(model, in, out), "%s back end: %s %s/%s returned {Val:%s NotFound:%v Err:%v Dup:%v List:%s}, map model state %q; last ops %v", backend, in.Op, in.Type, in.ID, truncate(out.Val, 60), out.NotFound, out.Err, out.Dup, out.List, truncate(kvShort(model), 400), tail)
 			}
 			model = next
 			r.StateFP(backend, model.enc())
